@@ -88,32 +88,37 @@ impl Line {
         self.cells.extend(filler);
     }
 
-    pub(crate) fn contract(&mut self, len: usize) -> Option<Line> {
+    /// Cuts the line down to `len` cells and returns what was cut off as further rows of at most
+    /// `len` cells: all but the last one are full and marked as wrapped, the last one carries this
+    /// line's wrap mark. The rows are made in a single pass and nothing keeps the capacity of the
+    /// original line, so re-wrapping a long line takes time and memory proportional to its length.
+    pub(crate) fn contract(&mut self, len: usize) -> Vec<Line> {
         if !self.wrapped {
             let trimmed_len = self.len() - self.trailers();
             self.cells.truncate(len.max(trimmed_len));
         }
 
-        if self.len() > len {
-            let mut rest = Line {
-                cells: self.cells.split_off(len),
-                wrapped: self.wrapped,
-            };
-
-            if !self.wrapped {
-                rest.trim();
-            }
-
-            if rest.cells.is_empty() {
-                None
-            } else {
-                self.wrapped = true;
-
-                Some(rest)
-            }
-        } else {
-            None
+        if self.len() <= len {
+            return Vec::new();
         }
+
+        let mut rows: Vec<Line> = self.cells[len..]
+            .chunks(len)
+            .map(|cells| Line {
+                cells: cells.to_vec(),
+                wrapped: true,
+            })
+            .collect();
+
+        if let Some(last) = rows.last_mut() {
+            last.wrapped = self.wrapped;
+        }
+
+        self.cells.truncate(len);
+        self.cells.shrink_to_fit();
+        self.wrapped = true;
+
+        rows
     }
 
     pub fn len(&self) -> usize {
